@@ -66,7 +66,7 @@ theorem statusLookup_mem {c back : Nat} {p : Bytes} {t : List (Nat × Nat × Byt
 
 /-- Known header names are spelled as non-empty tokens. -/
 theorem header_display_token :
-    ∀ row ∈ Generated.headerTable, row.2.1 ≠ [] ∧ ∀ b ∈ row.2.1, Spec.isTchar b = true := by decide
+    ∀ row ∈ Generated.headerTable, row.2.1 ≠ [] ∧ ∀ b ∈ row.2.1, Spec.isTchar b = true := by decide +kernel
 
 /-- Reason phrases are printable ASCII without CR/LF. -/
 theorem reason_phrase_clean :
